@@ -65,8 +65,8 @@ inductive SrcStep (c : Nat) : SrcV → SrcV → Prop
       SrcStep c a { a with out := a.out ++ [⟨c, STOP, []⟩] }
   | foreign (a : SrcV) (fr : Frame) (hf : Foreign c fr) : SrcStep c a { a with out := a.out ++ [fr] }
   | discard (a : SrcV) (hp : a.present = true) : SrcStep c a { a with buf := [], shutR := true }
-  | setShutR (a : SrcV) : SrcStep c a { a with shutR := true }
-  | setMwShutW (a : SrcV) : SrcStep c a { a with mwShutW := true }
+  | flags (a : SrcV) (r w : Bool) (hr : a.shutR = true → r = true) (hw : a.mwShutW = true → w = true) :
+      SrcStep c a { a with shutR := r, mwShutW := w }
   | remove (a : SrcV) (hp : a.present = true) : SrcStep c a { a with present := false, buf := [] }
   | create (a : SrcV) (he : a.ever = false) (r : Bool) :
       SrcStep c a { a with present := true, ever := true, buf := [], shutR := r, mwShutW := false }
@@ -76,9 +76,13 @@ inductive SinkStep : SinkV → SinkV → Prop
       (hs : moved ≠ [] → b.sawShut = false) :
       SinkStep b { b with buf := rest, delivered := b.delivered ++ moved }
   | discard (b : SinkV) (hw : b.swShutW = true) : SinkStep b { b with buf := [] }
-  | setMwShutR (b : SinkV) (hw : b.swShutW = true) : SinkStep b { b with mwShutR := true }
-  | shutW (b : SinkV) : SinkStep b { b with swShutW := true, sawShut := true }
-  | okFalse (b : SinkV) (hw : b.swShutW = true) : SinkStep b { b with ok := false }
+  | flags (b : SinkV) (r w saw ok : Bool)
+      (h1 : b.swShutW = true → w = true) (h2 : b.sawShut = true → saw = true)
+      (h3 : b.mwShutR = true → r = true)
+      (h4 : w = true → b.swShutW = true ∨ saw = true)      -- a newly shut wrapper shut its socket
+      (h5 : r = true → b.mwShutR = true ∨ w = true)         -- `noread` on the mux side only when shut_write
+      (h6 : ok = false → b.ok = false ∨ w = true) :
+      SinkStep b { b with mwShutR := r, swShutW := w, sawShut := saw, ok := ok }
   | remove (b : SinkV) (hok : b.ok = false) (hp : b.present = true) :
       SinkStep b { b with present := false, buf := [] }
 
@@ -260,28 +264,20 @@ theorem DirInv.srcStep {c : Nat} {a a' : SrcV} {b : SinkV} (h : DirInv c a b) (s
       · exact Or.inl hs
       · exact Or.inr ⟨noMore_of_flags nm rfl (Or.inl rfl) id (fun _ => rfl) (fun _ => rfl), hd⟩
     · intro _; rfl
-  | setShutR =>
+  | flags r w hr hw =>
     refine { h with exact := ?_, eofNM := ?_, gone := ?_ }
     · rcases h.exact with hs | ⟨lost, he, hl⟩
       · exact Or.inl hs
       · right
         refine ⟨lost, he, fun hne => ?_⟩
         obtain ⟨h1, h2⟩ := hl hne
-        exact ⟨h1, h2.elim Or.inl (fun _ => Or.inr rfl)⟩
+        exact ⟨h1, h2.elim Or.inl (fun h3 => Or.inr (hr h3))⟩
     · intro he
-      exact noMore_of_flags (h.eofNM he) rfl (Or.inl rfl) id id (fun _ => rfl)
+      exact noMore_of_flags (h.eofNM he) rfl (Or.inl rfl) hw id hr
     · intro hb1 hb2
       rcases h.gone hb1 hb2 with hs | ⟨nm, hd⟩
       · exact Or.inl hs
-      · exact Or.inr ⟨noMore_of_flags nm rfl (Or.inl rfl) id id (fun _ => rfl), hd⟩
-  | setMwShutW =>
-    refine { h with eofNM := ?_, gone := ?_ }
-    · intro he
-      exact noMore_of_flags (h.eofNM he) rfl (Or.inl rfl) (fun _ => rfl) id id
-    · intro hb1 hb2
-      rcases h.gone hb1 hb2 with hs | ⟨nm, hd⟩
-      · exact Or.inl hs
-      · exact Or.inr ⟨noMore_of_flags nm rfl (Or.inl rfl) (fun _ => rfl) id id, hd⟩
+      · exact Or.inr ⟨noMore_of_flags nm rfl (Or.inl rfl) hw id hr, hd⟩
   | remove hp =>
     have hev := h.srcEv hp
     have nm' : noMore { a with present := false, buf := [] } := ⟨hev, Or.inl rfl⟩
@@ -357,17 +353,33 @@ theorem DirInv.sinkStep {c : Nat} {a : SrcV} {b b' : SinkV} (h : DirInv c a b) (
       rcases h.exact with hs | ⟨lost, he, hl⟩
       · exact Or.inl hs
       · exact Or.inr ⟨lost, by simp only [he, hb], hl⟩
-  | setMwShutR hw =>
-    refine { h with gone := ?_ }
-    intro hb1 _
-    by_cases hp : b.present = true
-    · exact Or.inl (h.shutOk hp hw)
-    · exact h.gone hb1 (Or.inl (by simpa using hp))
-  | shutW =>
-    refine { h with exact := Or.inl rfl, shutOk := fun _ _ => rfl, gone := fun _ _ => Or.inl rfl,
-                    dead := fun _ _ => rfl }
-  | okFalse hw =>
-    refine { h with dead := fun _ _ => hw }
+  | flags r w saw ok h1 h2 h3 h4 h5 h6 =>
+    have hshut : b.present = true → w = true → saw = true := by
+      intro hp hw
+      rcases h4 hw with h' | h'
+      · exact h2 (h.shutOk hp h')
+      · exact h'
+    refine { h with exact := ?_, shutOk := hshut, gone := ?_, dead := ?_ }
+    · rcases h.exact with hs | ⟨lost, he, hl⟩
+      · exact Or.inl (h2 hs)
+      · exact Or.inr ⟨lost, he, hl⟩
+    · intro hb1 hb2
+      have old : (b.present = false ∨ b.mwShutR = true) → saw = true ∨ (noMore a ∧ dataOf c a.out = []) := by
+        intro hh
+        rcases h.gone hb1 hh with hs | hr
+        · exact Or.inl (h2 hs)
+        · exact Or.inr hr
+      rcases hb2 with hnp | hr
+      · exact old (Or.inl hnp)
+      · rcases h5 hr with h' | h'
+        · exact old (Or.inr h')
+        · by_cases hp : b.present = true
+          · exact Or.inl (hshut hp h')
+          · exact old (Or.inl (by simpa using hp))
+    · intro hp hok
+      rcases h6 hok with h' | h'
+      · exact h1 (h.dead hp h')
+      · exact h'
   | remove hok hp =>
     have hsw := h.dead hp hok
     have hsaw := h.shutOk hp hsw
